@@ -56,6 +56,26 @@ func c09Rules(p *core.Prog, r *core.Run) {
 	// --- EXIT
 	keyLoopExits(p, r, m, "C09.EXIT")
 	c09Keys(p, r, m, "C09.KEYS")
+	// a hello is given up as "nobody's" only after every key was tried: no
+	// way out of the processor that reports no-match lies in front of (or
+	// inside) the key loop - a shortcut on summary data about the keys (a table
+	// by config id, a count) makes the outcome depend on the other keys
+	nNM := 0
+	for _, ret := range core.Returns(pe) {
+		isNM := false
+		for _, g := range errorSentinels(p, retErr(ret)) {
+			if g == "ech.errNoMatch" {
+				isNM = true
+			}
+		}
+		if !isNM {
+			continue
+		}
+		nNM++
+		after := m.loop != nil && m.loop.Dominates(ret.Block()) && !m.loopBody[ret.Block()]
+		r.Check("C09.EXIT", fmt.Sprintf("no-match:after-all-keys#%d", nNM), after, p.InstrPos(ret), "no-match is reported only behind the key loop, when every key was tried")
+	}
+	r.Check("C09.EXIT", "no-match:exits", nNM >= 1, p.Pos(pe.Pos()), "%d no-match exits examined", nNM)
 
 	// --- LEAVE
 	for i, st := range m.accept {
